@@ -241,6 +241,49 @@ func init() {
 		}
 		return "ok"
 	})
+	// buildersetprobe p1,p2,...: Builder.Set(p, 1) for positions up to the largest an int32 holds (the top word of a
+	// 2^25-word bitmap included); after every Set the bit reads 1, the words cover it, and exactly the positions set so
+	// far are 1.  Output "ok" or the first discrepancy.
+	reg("buildersetprobe", func(a []string) string {
+		b := bitmap.NewBuilder(0)
+		set := map[int32]bool{}
+		for _, p := range parseI32s(a[0]) {
+			msg := ""
+			func() {
+				defer func() {
+					if e := recover(); e != nil {
+						msg = fmt.Sprintf("Set(%d, 1) panics: %.60v", p, e)
+					}
+				}()
+				b.Set(p, 1)
+			}()
+			if msg != "" {
+				return msg
+			}
+			set[p] = true
+			if int64(len(b.Words))*64 <= int64(p) {
+				return fmt.Sprintf("after Set(%d, 1): %d words do not reach the bit", p, len(b.Words))
+			}
+			if b.Words[p>>6]>>uint(p&63)&1 != 1 {
+				return fmt.Sprintf("after Set(%d, 1) the bit reads 0", p)
+			}
+		}
+		n := 0
+		for i, w := range b.Words {
+			for w != 0 {
+				q := int32(i*64 + bits.TrailingZeros64(w))
+				if !set[q] {
+					return fmt.Sprintf("bit %d is set but was never set by the caller", q)
+				}
+				n++
+				w &= w - 1
+			}
+		}
+		if n != len(set) {
+			return fmt.Sprintf("%d bits set, want %d", n, len(set))
+		}
+		return "ok"
+	})
 	// ofmanyprobe n k seed: OfMany on n segments with k positions each (given by a formula; the last segment may
 	// reach beyond its size) must equal Of of the shifted concatenation -- the property's own wording.
 	reg("ofmanyprobe", func(a []string) string {
